@@ -103,7 +103,37 @@ def encode_labels(rng, data):
   return out
 
 
+def relayout(a, kind):
+  """the same numbers in another memory layout (a fresh array every time): 'C', 'F' (column-major), 'tuple_outer'
+  (built as np.stack of the per-position point arrays and transposed: the tuple axis is outermost in memory),
+  'strided' (every second element of a larger buffer)"""
+  a = np.asarray(a)
+  if kind in (None, 'C') or a.ndim < 2:
+    return np.array(a, order='C')
+  if kind == 'F':
+    return np.array(a, order='F')
+  if kind == 'tuple_outer' and a.ndim == 3:
+    return np.stack([np.array(a[:, j]) for j in range(a.shape[1])]).transpose(1, 0, 2)
+  if kind == 'strided' or kind == 'tuple_outer':
+    big = np.zeros(tuple(2 * n for n in a.shape), dtype=a.dtype)
+    view = big[tuple(slice(None, None, 2) for _ in a.shape)]
+    view[...] = a
+    return view
+  raise KeyError(kind)
+
+
+LAYOUTS = ('C', 'F', 'tuple_outer', 'strided')
+
+
 def fit_args(name, data):
+  args = _fit_args(name, data)
+  lay = data.get('layout')
+  if lay:
+    args = (relayout(args[0], lay),) + tuple(args[1:])
+  return args
+
+
+def _fit_args(name, data):
   k = KIND[name]
   X = data['X']
   if k == 'unsup':
